@@ -45,6 +45,13 @@ def cases(tier):
         style = draw(st.sampled_from(["wrapped", "wrapped", "wrapped", "bare", "out_bare"]))
         m = draw(spec.methods(U, name="m0", styles=(style,)))
         # +-INF and NaN lie outside Double's declared default open range (gt=-inf, lt=inf)
+        if U["classes"] and draw(st.integers(0, 5)) == 0:
+            # a member carrying protocol-specific attributes for ANOTHER protocol (excluded from
+            # JsonDocument output only): it must travel over XML as if they were not there
+            c = U["classes"][draw(st.integers(0, len(U["classes"]) - 1))]
+            prims = [ft for fn, ft in c["fields"] if ft["k"] == "prim" and ft["t"] != "ByteArray"]
+            if prims:
+                prims[0].setdefault("f", {})["pa_json_exc"] = True
         vg = values.ValueGen(U, special_floats=False, nil_items=True)
         if m["style"] == "bare":
             args = [draw(vg.single(t)) for _, t in m["args"]]
@@ -85,6 +92,21 @@ def _protocols(case):
     cls = {"xml": XmlDocument, "soap11": Soap11, "soap12": Soap12}[case["prot"]]
     po = case.get("popts") or {}
     return cls(validator=case["validator"], **(po.get("in") or {})), cls(**(po.get("out") or {}))
+
+
+def _json_neighbour(E, case):
+    """another protocol instance (JsonDocument, through spyne.util.dictdoc) serializes the
+    returned objects first: per-protocol state must not reach the XML protocols under test"""
+    if not any("pa_json_exc" in (ft.get("f") or {}) for c in case["U"]["classes"] for _, ft in c["fields"]):
+        return
+    try:
+        from spyne.util.dictdoc import get_object_as_json
+        for (t, j) in list(zip(case["m"]["ret"], case["rets"])) + \
+                [(t, j) for (_, t), j in zip(case["m"]["args"], case["args"])]:
+            if t["k"] == "ref" and (t.get("occ") or {}).get("max", 1) == 1 and j is not None:
+                get_object_as_json(E.B.to_native(t, j), E.B.classes[t["n"]])
+    except Exception:
+        pass
 
 
 class Env(object):
@@ -236,6 +258,7 @@ def run_case(case, rec, with_clients=True):
         return fails
     req = etree.tostring(E.wrap(req_body), xml_declaration=bool(case["variant"] & 1),
                          encoding="UTF-8")
+    _json_neighbour(E, case)
     out = drive.server_call(E.app, req)
     n_calls = len(E.rec.calls)
     if out.escaped is not None:
